@@ -54,6 +54,29 @@ type c10Input struct {
 	Col    int    `json:"col"`
 	Cell   string `json:"cell"`
 	Layout int    `json:"layout"`
+	Mixed  string `json:"mixed,omitempty"` // a whole one-row log with one column per quantity
+}
+
+// genMixedLog: every dual-unit quantity once, unit system chosen per quantity, random order.
+func genMixedLog(r *Rng) string {
+	n := len(unitCols) / 2
+	order := r.Perm(n)
+	k := 2 + r.Intn(n-1)
+	var hdr, row []string
+	needOBD := false
+	for _, q := range order[:k] {
+		c := unitCols[2*q+r.Intn(2)]
+		hdr = append(hdr, `"`+c.Hdr+`"`)
+		row = append(row, genDecimal(r))
+		if strings.HasSuffix(c.Hdr, "*OBD") {
+			needOBD = true
+		}
+	}
+	if needOBD && r.Bool() {
+		hdr = append([]string{`"OBD_Update"`}, hdr...)
+		row = append([]string{"1"}, row...)
+	}
+	return strings.Join(hdr, ",") + "\n" + strings.Join(row, ",") + "\n"
 }
 
 // genDecimal makes a plain decimal: sign, magnitude 1e-3..1e6, 0-6 fraction digits.
@@ -171,20 +194,40 @@ func runC10(ctx *Ctx) error {
 		for col := range unitCols {
 			for _, s := range c10Specials {
 				if ctx.Thorough() || ctx.R.Chance(0.35) {
-					inputs = append(inputs, c10Input{col, s, ctx.R.Intn(3)})
+					inputs = append(inputs, c10Input{Col: col, Cell: s, Layout: ctx.R.Intn(3)})
 				}
 			}
 			for i := 0; i < per; i++ {
-				inputs = append(inputs, c10Input{col, genDecimal(ctx.R), ctx.R.Intn(3)})
+				inputs = append(inputs, c10Input{Col: col, Cell: genDecimal(ctx.R), Layout: ctx.R.Intn(3)})
 			}
 		}
 	}
+	if ctx.Replay == "" {
+		for i := 0; i < ctx.N(150, 2500); i++ {
+			inputs = append(inputs, c10Input{Col: -1, Mixed: genMixedLog(ctx.R)})
+		}
+	}
+	ctx.Imports = []string{"Trackaddict.Columns", "Trackaddict.Model", "Run.Ta_run"}
 	for _, in := range inputs {
+		if in.Mixed != "" {
+			res := runTADecode(in.Mixed)
+			obs := emptyObs
+			if res.Sess != nil {
+				obs = dumpSession(res.Sess)
+			}
+			ctx.Add(Case{
+				Coq:   fmt.Sprintf("(Mixed (Ta_run.mkCase %s %s %s))", CoqStr(in.Mixed), CoqNat(res.Class), obs),
+				Input: in, Obs: map[string]any{"class": res.Class, "detail": res.Detail},
+				Key:  in.Mixed,
+				Tags: []string{"layout:mixed", fmt.Sprintf("class:%d", res.Class)},
+			})
+			continue
+		}
 		class, bits, detail := c10Run(in)
 		coq := fmt.Sprintf("mkCase %s %s %s %s", CoqStr(unitCols[in.Col].Hdr), CoqStr(in.Cell), CoqNat(class), CoqU64(bits))
 		trivial := strings.Trim(in.Cell, "+-0.") == ""
 		ctx.Add(Case{
-			Coq:     "(" + coq + ")",
+			Coq:     "(One (" + coq + "))",
 			Input:   in,
 			Obs:     map[string]any{"class": class, "bits": bits, "detail": detail},
 			Key:     fmt.Sprintf("%d|%s", in.Col, in.Cell),
